@@ -94,6 +94,89 @@ fn follow_up(opts: Opts, base: &Path, words: &[String]) -> Result<(Vec<Rendered>
     Ok((out, before_restart))
 }
 
+/// Late injection: the context starts over a healthy user directory, types, and only then the
+/// user auto-correct file appears in its faulty state (mtime forward) and update-engine re-reads it.
+/// `inject` = None deletes the file instead (the reference for unreadable content).
+fn late_follow_up(opts: Opts, base: &Path, ac_file: &Path, initial: Option<&str>, inject: Option<&[u8]>, words: &[String]) -> Result<Vec<Rendered>, Broken> {
+    use std::time::{Duration, UNIX_EPOCH};
+    let stamp = |secs: u64| {
+        if let Ok(f) = std::fs::File::options().write(true).open(ac_file) {
+            let _ = f.set_modified(UNIX_EPOCH + Duration::from_secs(secs));
+        }
+    };
+    if let Some(doc) = initial {
+        std::fs::write(ac_file, doc).expect("initial autocorrect");
+        stamp(1_000_000);
+    }
+    let mut out = vec![];
+    let mut ctx = Ctx::new_at(opts, base).map_err(|p| panic_at("creating a context".into(), p))?;
+    for w in words.iter().take(2) {
+        if let Some(r) = ctx.type_frontend(w).map_err(|p| panic_at(format!("typing {w:?}"), p))? {
+            out.push(r);
+        }
+        ctx.finish().map_err(|p| panic_at("finish".into(), p))?;
+    }
+    match inject {
+        Some(bytes) => {
+            std::fs::write(ac_file, bytes).expect("inject");
+            stamp(1_000_100);
+        }
+        None => {
+            let _ = std::fs::remove_file(ac_file);
+        }
+    }
+    let cfg = crate::driver::mk_config_at(&opts, base);
+    {
+        let c = &mut ctx.ctx;
+        crate::driver::guarded(|| c.update_engine(&cfg)).map_err(|p| panic_at("update-engine after the file changed".into(), p))?;
+    }
+    for w in words {
+        if let Some(r) = ctx.type_frontend(w).map_err(|p| panic_at(format!("typing {w:?} after the reload"), p))? {
+            let n = r.choices();
+            out.push(r);
+            if n > 0 {
+                ctx.commit(n - 1).map_err(|p| panic_at(format!("committing the last candidate of {w:?} after the reload"), p))?;
+            }
+        }
+    }
+    Ok(out)
+}
+
+pub fn check_late(bytes: &[u8], with_data: bool, initial: bool, st: &mut Stats) -> Result<(), Failure> {
+    let mut opts = Opts::parse("sqe");
+    opts.nodata = !with_data;
+    let desc = json!({"late_injection": true, "file": "autocorrect.json", "content_lossy": String::from_utf8_lossy(&bytes[..bytes.len().min(300)]), "bytes": bytes, "with_data": with_data, "initial_file": initial});
+    let f = Fault::Autocorrect(bytes.to_vec());
+    let words = words_for(&f);
+    let init = if initial { Some("{\"abc\":\"kkk\",\"smile\":\"hasi\"}") } else { None };
+    let unreadable = !is_object_of_strings(bytes);
+    let sb = Sandbox::new();
+    let got = late_follow_up(opts, sb.base(), &sb.autocorrect_file(), init, Some(bytes), &words)
+        .map_err(|b| Failure::new(format!("late-{}:{}", if unreadable { "unreadable-file" } else { "odd-content" }, b.kind), format!("{}: {}", b.what, b.detail), desc.clone()))?;
+    if unreadable {
+        let clean = Sandbox::new();
+        let want = late_follow_up(opts, clean.base(), &clean.autocorrect_file(), init, None, &words).map_err(|b| Failure::new(b.kind, format!("reference run: {}: {}", b.what, b.detail), desc.clone()))?;
+        if got != want {
+            let i = got.iter().zip(want.iter()).position(|(a, b)| a != b).unwrap_or(0);
+            return Err(Failure::new(
+                "unreadable-file-not-treated-as-absent",
+                format!("late injection: rendering #{i} differs from the run where the file was removed instead: {} vs {}", got.get(i).map(|r| r.short()).unwrap_or_default(), want.get(i).map(|r| r.short()).unwrap_or_default()),
+                desc,
+            ));
+        }
+    }
+    st.evals(1);
+    st.label("late-injection-before-update-engine");
+    st.nontrivial(hash_of(&("late", bytes, with_data, initial)), || {
+        let mut d = desc.clone();
+        if let Some(o) = d.as_object_mut() {
+            o.remove("bytes");
+        }
+        d
+    });
+    Ok(())
+}
+
 fn words_for(f: &Fault) -> Vec<String> {
     let mut w: Vec<String> = vec![];
     let ks = match f {
@@ -335,6 +418,9 @@ pub fn run(run: &Run) {
         |(i, f), st, _| {
             let with_data = i % 16 == 0 || matches!(f, Fault::Dir(_));
             check_fault(f, with_data, st)?;
+            if let Fault::Autocorrect(b) = f {
+                check_late(b, with_data, i % 2 == 0, st)?;
+            }
             if matches!(f, Fault::Dir(_)) {
                 check_fault(f, false, st)?;
             }
@@ -357,6 +443,9 @@ pub fn run(run: &Run) {
                 for (k, p, b) in muts {
                     d = mutate(&d, *k, *p, *b);
                 }
+                if !*is_sel {
+                    check_late(&d, *dsel == 0, *dsel & 2 != 0, st)?;
+                }
                 let f = if *is_sel { Fault::Selection(d) } else { Fault::Autocorrect(d) };
                 check_fault(&f, *dsel == 0, st)
             },
@@ -364,10 +453,15 @@ pub fn run(run: &Run) {
     }
     run.require_label("unreadable-compared-with-absent", 100);
     run.require_label("directory-fault", 5);
+    run.require_label("late-injection-before-update-engine", 100);
 }
 
 pub fn replay(_run: &Run, case: &Value) -> Result<(), Failure> {
     let with_data = case["with_data"].as_bool().unwrap_or(true);
+    if case["late_injection"].as_bool() == Some(true) {
+        let bytes: Vec<u8> = serde_json::from_value(case["bytes"].clone()).unwrap_or_default();
+        return check_late(&bytes, with_data, case["initial_file"].as_bool().unwrap_or(false), &mut Stats::new());
+    }
     let f = if let Some(d) = case["directory_fault"].as_u64() {
         Fault::Dir(d as u8)
     } else {
